@@ -126,6 +126,10 @@ func main() {
 		for i := range name {
 			name[i] = "ABCDEFGHIJKLMNOPQRSTUVWXYZabcdefghijklmnopqrstuvwxyz0123456789 -"[rg.Intn(64)]
 		}
+		if nameLen == 75 {
+			// every character of the PrintableString alphabet (X.680 table 10) once, then one more
+			name = []byte("ABCDEFGHIJKLMNOPQRSTUVWXYZabcdefghijklmnopqrstuvwxyz0123456789 '()+,-./:=?/")
+		}
 		p := append([]byte{}, curPlmn...)
 		r.emit("GetNGSetupRequest", ev.M{"plmn": ev.Ints(p), "gnbId": ev.Ints(gid), "gnbBits": bits, "name": ev.Ints(name)},
 			func() ([]byte, error) { return tglib.GetNGSetupRequest(gid, p, bits, string(name)) })
@@ -245,6 +249,24 @@ func main() {
 			none := ev.M{}
 			if first {
 				r.emit("BuildNGReset", none, enc(func() ngapType.NGAPPDU { return tp.BuildNGReset(nil) }))
+				// a reset of part of the interface: connections named by both identifiers, by one of them (TS 38.413 9.3.3.? allows
+				// either alone): the identifier pairs in the encoding must be the given ones, item by item (-1 = absent)
+				{
+					lst := &ngapType.UEAssociatedLogicalNGConnectionList{}
+					var conns [][]int
+					for _, pr := range [][2]int64{{5, 7}, {70000, -1}, {-1, 9}, {0, 0}, {-1, 65536}, {1, -1}} {
+						it := ngapType.UEAssociatedLogicalNGConnectionItem{}
+						if pr[0] >= 0 {
+							it.AMFUENGAPID = &ngapType.AMFUENGAPID{Value: pr[0]}
+						}
+						if pr[1] >= 0 {
+							it.RANUENGAPID = &ngapType.RANUENGAPID{Value: pr[1]}
+						}
+						lst.List = append(lst.List, it)
+						conns = append(conns, []int{int(pr[0]), int(pr[1])})
+					}
+					r.emit("BuildNGReset", ev.M{"conns": conns}, enc(func() ngapType.NGAPPDU { return tp.BuildNGReset(lst) }))
+				}
 			}
 			if first {
 				r.emit("BuildNGResetAcknowledge", none, enc(tp.BuildNGResetAcknowledge))
